@@ -1,6 +1,7 @@
 package main
 
 import (
+	"go/constant"
 	"fmt"
 	"go/ast"
 	"go/token"
@@ -629,8 +630,67 @@ func runC03(c *Ctx) {
 		}
 		c.check(okDep, "C03.R5", ssaFuncName(sel)+"|escaper-on-in-literal-paths", c.pos(sel.Pos()), "every escaper call is on a path that tested the in-literal flag", "an escaper call in the selector is not guarded by the in-literal flag")
 	}
+	jsonScriptBodyOnlyFromEncoder(c, f, "C03.R6")
 	c.floor("C03.R1", 40)
 	c.floor("C03.R3", 8)
+	c.floor("C03.R6", 3)
+}
+
+// jsonScriptBodyOnlyFromEncoder: in every function of the root package that writes a constant "<script…" opener and
+// hands data to a JSON encoder (the JSON script element), every byte written between the opener and the closing tag
+// is a constant, an HTML-escaped attribute value, or the output of that encoder. A value written any other way
+// (a json.RawMessage passed through as-is, a pre-encoded string) skips encoding/json's escaping of < > & U+2028 U+2029.
+func jsonScriptBodyOnlyFromEncoder(c *Ctx, f *flow, rule string) {
+	sp := c.ssaPkg(".")
+	n := 0
+	for _, fn := range ssaFuncs(c.prog, sp) {
+		sinks := findSinks(fn)
+		opener, hasEnc := false, false
+		for _, s := range sinks {
+			if s.Kind == "Encoder.Encode" {
+				hasEnc = true
+			}
+			for _, o := range s.Operands {
+				if k, ok := o.(*ssa.Const); ok && k.Value != nil && k.Value.Kind() == constant.String && strings.HasPrefix(constant.StringVal(k.Value), "<script") {
+					opener = true
+				}
+			}
+		}
+		if !opener {
+			continue
+		}
+		name := ssaFuncName(fn)
+		if !hasEnc {
+			// the script-template writers are decided by R3; a JSON script element that lost its encoder is reported here
+			if strings.Contains(name, "JSONScript") {
+				c.viol(rule, name+"|body-from-json-encoder", c.pos(fn.Pos()), name+" writes a <script> element but no longer hands its data to a json.Encoder")
+			}
+			continue
+		}
+		n++
+		ord := map[string]int{}
+		for _, s := range sinks {
+			ord[s.Kind]++
+			key := fmt.Sprintf("%s|%s#%d|json-script-write", name, s.Kind, ord[s.Kind])
+			if s.Kind == "Encoder.Encode" {
+				c.ok(rule, key, c.pos(s.Pos), "the data goes through encoding/json's encoder (HTML-safe unless SetEscapeHTML, R2)")
+				continue
+			}
+			bad := ""
+			for oi, o := range s.Operands {
+				for _, l := range flatten(f.classify(o)) {
+					switch l.Kind {
+					case "CONST", "ESCAPED":
+					default:
+						bad = fmt.Sprintf("operand %d is %s", oi, l.String())
+					}
+				}
+			}
+			c.check(bad == "", rule, key, c.pos(s.Pos), "constant or HTML-escaped attribute value",
+				fmt.Sprintf("%s writes into the JSON <script> element something that is neither a constant, an escaped attribute value nor the JSON encoder's output (%s): already-encoded JSON such as a json.RawMessage may contain </script>, <!-- or U+2028 verbatim, which encoding/json would have escaped", name, bad))
+		}
+	}
+	c.count("json_script_element_writers", n)
 }
 
 func allEscaped(ls []leaf) bool {
